@@ -4,7 +4,7 @@
      the SHORTEST decimal digit string that reads back as f, laid out
        d.ddde<x>      when f != 0 and (|f| < 1e-4 or |f| >= 1e16)      (no '+', no padding;  1e16, 2.5e-7)
        ddd.ddd        otherwise, with at least one digit after the point  (1000.0, 0.0001, 1.5)
-     and the word  inf  for an infinite f (finding F14).
+     (an infinite f -- a spelling such as 1e400 -- printed the word  inf  until fix 1ae3488 made it a compile error: F14).
    What is modelled here is the layout, as a function of the DECIMAL value  m * 10^e  of the literal's spelling
    (Model/Literal.v lex_number: NDec m e), taking the shortest digit string to be the digits of m without its trailing
    zeros.  That is what Rust prints whenever those digits are at most 15 (every decimal of <= 15 significant digits is
@@ -62,9 +62,10 @@ Definition overflows (m : N) (e : Z) : bool :=
   if m =? 0 then false else
   let top := (Z.of_nat (length (digits_of m)) + e)%Z in     (* 10^(top-1) <= m * 10^e < 10^top *)
   if (310 <? top)%Z then true else if (top <? 309)%Z then false else overflows_exact m e.
-Definition s_inf : str := [105; 110; 102].
-(* what translate_literal emits for the float literal whose spelling denotes m * 10^e *)
-Definition emit_float_rust (m : N) (e : Z) : str := if overflows m e then s_inf else emit_float m e.
+Definition s_inf : str := [105; 110; 102].      (* what {:?} prints for an infinite float -- emitted before fix 1ae3488 (finding F14) *)
+(* what translate_literal emits for the float literal whose spelling denotes m * 10^e; None: the compile error
+   "float literal is out of range" (since fix 1ae3488 a value that rounds to infinity is rejected) *)
+Definition emit_float_rust (m : N) (e : Z) : option str := if overflows m e then None else Some (emit_float m e).
 
 (* the class on which "shortest digits = the spelling's digits" holds: at most 15 significant digits, normal range *)
 Definition in_class (m : N) (e : Z) : bool :=
@@ -111,5 +112,5 @@ Definition sql_number_value (t : str) : option (N * Z) :=
   end.
 
 (* plain-data view for the correspondence harness *)
-Definition emit_float_view (m : N) (sg : bool) (mag : N) : bool * str :=
+Definition emit_float_view (m : N) (sg : bool) (mag : N) : bool * option str :=
   let e := if sg then Z.opp (Z.of_N mag) else Z.of_N mag in (in_class m e, emit_float_rust m e).
